@@ -26,6 +26,22 @@ def build_cell(c, refs, route):
         for r in refs:
             b.store_ref(r)
         return b.end_cell()
+    if route == 'reuse':
+        # the builder keeps being used after the cell was taken from it (more data, another reference, a second cell)
+        b = Builder(type_=lib_type(c['t'])) if c['t'] != 0 else Builder()
+        b.store_bits(bits)
+        for r in refs:
+            b.store_ref(r)
+        cell = b.end_cell()
+        try:
+            if len(bits) < 1023:
+                b.store_bit(1)
+            if len(refs) < 4:
+                b.store_ref(Builder().store_uint(5, 3).end_cell())
+            b.end_cell()
+        except Exception:
+            pass
+        return cell
     if route == 'ctor':
         tb = TvmBitarray(1023)
         tb.extend(bits)
